@@ -110,6 +110,7 @@ func main() {
 	prop = args[0]
 	tier = os.Getenv("VERIF_TIER")
 	replay := ""
+	minFile := ""
 	runsOverride := 0
 	workers := 16
 	for i := 1; i < len(args); i++ {
@@ -120,6 +121,9 @@ func main() {
 		case "--replay":
 			i++
 			replay = args[i]
+		case "--minimise":
+			i++
+			minFile = args[i]
 		case "--runs":
 			i++
 			runsOverride, _ = strconv.Atoi(args[i])
@@ -164,6 +168,24 @@ func main() {
 
 	if replay != "" {
 		os.Exit(doReplay(replay, m))
+	}
+	if minFile != "" {
+		// developer aid: minimise the case of a result file (as printed by `simbin gen`)
+		b, err := os.ReadFile(minFile)
+		if err != nil {
+			infra("%v", err)
+		}
+		var r result
+		if err := json.Unmarshal(b, &r); err != nil || r.Violation == nil {
+			infra("not a violation result: %v", err)
+		}
+		cs, v, ok := minimise(&r)
+		fmt.Println("reproduced:", ok)
+		if ok {
+			fmt.Printf("%s\n%s\n", v.Detail, cs)
+		}
+		cleanup()
+		os.Exit(0)
 	}
 
 	runs := m.Quick
